@@ -63,8 +63,12 @@ class LoggedProblem:
                 pt = tuple(float(v) for v in point.floatVariables)
                 if phase == "global":
                     self.ncalls_global += 1
-                    if self.fail_at is not None and self.ncalls_global == self.fail_at:
+                    if self.fail_at is not None and (self.ncalls_global == self.fail_at or
+                                                     (getattr(self, "fail_forever", False) and self.ncalls_global > self.fail_at)):
                         self.fail_at = None if not getattr(self, "fail_forever", False) else self.fail_at
+                        if getattr(self, "fail_delay", 0):
+                            import time as _t
+                            _t.sleep(self.fail_delay)       # a LATE failure: the evaluation runs for a while before it raises
                         raise self.exc("objective failed on purpose")
                 v = fn(pt)
                 if fresh_holder:
